@@ -227,8 +227,8 @@ pub fn c02(tier: Tier) -> i32 {
 }
 
 /// C05 part (a): position() after every returned record = true (line, byte), every configuration
-pub fn c05a(tier: Tier) -> Totals {
-    conformance_totals("C05", &[Format::Fasta, Format::Fastq], tier, ConfCfg { positions: true, err_fields: false, nontrivial: has_record, what: "position() after every record" }).0
+pub fn c05a(tier: Tier) -> (Totals, String) {
+    conformance_totals("C05", &[Format::Fasta, Format::Fastq], tier, ConfCfg { positions: true, err_fields: false, nontrivial: has_record, what: "position() after every record" })
 }
 
 pub fn c17(tier: Tier) -> i32 {
